@@ -17,7 +17,7 @@ from concurrent.futures import ThreadPoolExecutor
 HERE = os.path.dirname(os.path.abspath(__file__))
 VERIF = os.path.dirname(HERE)
 sys.path.insert(0, VERIF)
-from selftest.mutants import MUTANTS  # noqa: E402
+from selftest.mutants import MUTANTS, EQUIV  # noqa: E402
 
 REPO = os.environ.get("VERIF_REPO", "/repo")
 
@@ -30,6 +30,14 @@ def run_mutant(m):
         repo = os.path.join(scratch, "repo")
         subprocess.run(["rsync", "-a", "--exclude", "target", "--exclude", ".git", REPO + "/", repo + "/"], check=True)
         applied = False
+        if m.get("patch"):
+            subprocess.run(["git", "init", "-q"], cwd=repo)
+            r = subprocess.run(["git", "apply", "--whitespace=nowarn", m["patch"]], cwd=repo, stdout=subprocess.PIPE, stderr=subprocess.STDOUT, text=True)
+            if r.returncode != 0:
+                res["status"] = "skipped"
+                res["detail"] = "seed patch no longer applies: " + r.stdout[-200:]
+                return res
+            applied = True
         for (rel, old, new) in m["edits"]:
             p = os.path.join(repo, rel)
             s = open(p).read()
@@ -50,7 +58,8 @@ def run_mutant(m):
         env = dict(os.environ, VERIF_REPO=repo, VERIF_TARGET_DIR=tdir, VERIF_NO_EVIDENCE="1")
         fired = []
         outs = []
-        for prop in sorted({p for (p, k) in m["expects"]}):
+        props = sorted({p for (p, k) in m["expects"]}) or ["C%02d" % i for i in range(1, 21)]
+        for prop in props:
             r = subprocess.run([os.path.join(VERIF, "check"), prop], env=env, stdout=subprocess.PIPE, stderr=subprocess.STDOUT, text=True)
             outs.append(r.stdout)
             if "fact extraction failed" in r.stdout:
@@ -62,6 +71,12 @@ def run_mutant(m):
                     _, p_, key, kind = line.split("\t", 3)
                     fired.append((p_, key, kind))
         res["fired"] = fired
+        if not m["expects"]:
+            # behaviour-preserving edit: any new violation is a false alarm
+            new_v = [(fp, fk) for (fp, fk, kind) in fired if kind.startswith("new")]
+            res["status"] = "silent" if not new_v else "FALSE-ALARM"
+            res["detail"] = "\n".join("%s %s" % x for x in new_v)
+            return res
         ok = True
         for (p, k) in m["expects"]:
             if not any(fp == p and k in fk and kind.startswith("new") for (fp, fk, kind) in fired):
@@ -77,6 +92,38 @@ def run_mutant(m):
     finally:
         shutil.rmtree(scratch, ignore_errors=True)
         res["wall_s"] = round(time.time() - t0, 1)
+
+
+def equiv_patches():
+    """Behaviour-preserving refactorings produced by independent sub-agents (/verif/selftest/equiv/<id>/patch.diff)."""
+    out = []
+    d = os.path.join(VERIF, "selftest", "equiv")
+    if os.path.isdir(d):
+        for sid in sorted(os.listdir(d)):
+            p = os.path.join(d, sid, "patch.diff")
+            if os.path.exists(p):
+                out.append(dict(name="equiv_" + sid, patch=p, edits=[], expects=[]))
+    return out
+
+
+def seed_mutants(prop=None):
+    """Seeded breakages (independent sub-agents, /verif/seeded/<id>) as mutants: expectation = some new violation of the
+    seed's own property, unless the seed is recorded as not statically detectable."""
+    out = []
+    d = os.path.join(VERIF, "seeded")
+    if not os.path.isdir(d):
+        return out
+    for sid in sorted(os.listdir(d)):
+        mp = os.path.join(d, sid, "meta.json")
+        if not os.path.exists(mp):
+            continue
+        meta = json.load(open(mp))
+        if prop and meta.get("property") != prop:
+            continue
+        if meta.get("not_statically_detectable"):
+            continue
+        out.append(dict(name="seed_" + sid, patch=os.path.join(d, sid, "patch.diff"), edits=[], expects=[(meta["property"], "")]))
+    return out
 
 
 def main(argv):
@@ -96,7 +143,8 @@ def main(argv):
             out = argv[i + 1]; i += 2
         else:
             i += 1
-    todo = [m for m in MUTANTS if (only is None or only in m["name"]) and (prop is None or any(p == prop for p, _ in m["expects"]))]
+    allm = (EQUIV + equiv_patches()) if "--equiv" in argv else (MUTANTS + seed_mutants())
+    todo = [m for m in allm if (only is None or only in m["name"]) and (prop is None or any(p == prop for p, _ in m["expects"]))]
     # make sure the base target dir and driver exist (so copies are warm)
     subprocess.run([os.path.join(VERIF, "check"), "--setup"], stdout=subprocess.DEVNULL, stderr=subprocess.DEVNULL)
     with ThreadPoolExecutor(max_workers=jobs) as ex:
@@ -104,7 +152,7 @@ def main(argv):
     bad = 0
     for r in results:
         print("%-14s %-46s %s  (%.0fs)" % (r["status"], r["name"], ",".join("%s:%s" % e for e in r["expects"]), r.get("wall_s", 0)))
-        if r["status"] in ("MISSED", "error", "does-not-compile"):
+        if r["status"] in ("MISSED", "error", "does-not-compile", "FALSE-ALARM"):
             bad += 1
             print("    " + r["detail"].replace("\n", "\n    ")[-1500:])
     print("selftest: %d mutants, %d detected, %d skipped, %d not ok" % (
